@@ -45,7 +45,7 @@ function* configs(tier) {
 }
 
 // only what the statement demands: an invalid *pattern* is rejected when the configuration is read
-const INVALID = ['{"customElementPatterns":["("]}', '{"customElementPatterns":["^i-","[a"]}', '{"customElementPatterns":["(?<x"],"optimize":true}', '{"customElementPatterns":["a{2,1}"]}', '{"customElementPatterns":["\\\\"]}', '{"customElementPatterns":["*"]}'];
+const INVALID = ['{"customElementPatterns":["("]}', '{"customElementPatterns":["^i-","[a"]}', '{"customElementPatterns":["(?<x"],"optimize":true}', '{"customElementPatterns":["a{2,1}"]}', '{"customElementPatterns":["\\\\"]}', '{"customElementPatterns":["*"]}', '{"customElementPatterns":[1]}', '{"customElementPatterns":[null,"^i-"]}', '{"customElementPatterns":[["^a"]]}', '{"customElementPatterns":["(?P<n>"]}', '{"customElementPatterns":["^i-","\\\\p{NoSuchClass}"]}'];
 
 // ---- (b) non-interference space
 const NI_ATTRS = ['id', 'bident', 'clsS', 'clsD', 'styO', 'onClick1', 'onClick2', 'sp1', 'spObj', 'on', 'nativeOn', 'key', 'ref', 'xlink'];
